@@ -143,12 +143,14 @@ public:
     template <class F> void run_cases(F&& f) {
         long first = args.start;
         while (first % args.nshard != args.shard) ++first;
+        first_case = first;
         for (long idx = first; idx < args.cases; idx += args.nshard) {
             journal(idx);
             cur_case = idx;
             Rng rng(args.seed, (uint64_t)idx);
             f(idx, rng);
             ++evaluations;
+            if (evaluations == next_checkpoint) { checkpoint(); next_checkpoint *= 2; }
         }
         journal(-1);
     }
@@ -194,9 +196,26 @@ public:
         fflush(stdout);
     }
 
+    // What was observed so far, for the driver to pick up if this process dies later (crash = C20's subject).
+    // Written at evaluations 64, 128, 256, ... so that the total cost stays linear.
+    void checkpoint() {
+        std::string line = summary_json("_ckpt");
+        std::string p = args.out + "/checkpoint_" + std::to_string(args.shard) + ".json";
+        std::string tmp = p + ".tmp";
+        { std::ofstream o(tmp, std::ios::binary | std::ios::trunc); o << line << "\n"; }
+        rename(tmp.c_str(), p.c_str());
+    }
+
     void finish() {
+        printf("%s\n", summary_json("").c_str());
+        fflush(stdout);
+        std::string p = args.out + "/checkpoint_" + std::to_string(args.shard) + ".json";
+        unlink(p.c_str());
+    }
+
+    std::string summary_json(const std::string& tag) {
         // hashes of non-trivial cases go to a side file; the driver unions them over shards
-        std::string hp = args.out + "/hashes_" + std::to_string(args.shard) + ".bin";
+        std::string hp = args.out + "/hashes_" + std::to_string(args.shard) + tag + "_" + std::to_string(first_case) + ".bin";
         {
             std::ofstream o(hp, std::ios::binary);
             for (uint64_t h : hashes) o.write((const char*)&h, 8);
@@ -223,13 +242,12 @@ public:
             o << "}";
         }
         o << "}}";
-        printf("%s\n", o.str().c_str());
-        fflush(stdout);
+        return o.str();
     }
 
     const Args& args;
     std::string prop;
-    long evaluations = 0, violations = 0, cur_case = -1;
+    long evaluations = 0, violations = 0, cur_case = -1, next_checkpoint = 64, first_case = 0;
     std::set<uint64_t> hashes;
     std::vector<std::string> samples;
     std::map<std::string, std::map<std::string, long>> cov;
